@@ -110,7 +110,8 @@ def meet(a, b):
 class Analysis:
     def __init__(self, data, repo="/repo"):
         self.repo = os.path.realpath(repo)
-        self.units = {u["name"]: u for u in data["units"]}
+        self.units = {u["name"]: u for u in (data.get("units") or [])}
+        data["structs"] = data.get("structs") or []
         self.problems = list(data.get("problems") or [])
         self.notes = list(data.get("notes") or [])
         base = {os.path.basename(f) for f in FILES}
@@ -387,7 +388,10 @@ def build(repo):
 
 def main():
     repo, gendir = sys.argv[1], sys.argv[2]
-    table, problems, notes, _ = build(repo)
+    try:
+        table, problems, notes, _ = build(repo)
+    except Exception as e:  # never break the builds of other properties: an empty table with translator_ok = false
+        table, problems, notes = [], ["translator crashed: %r" % (e,)], []
     if problems:
         sys.stderr.write("gen_lockset: not understood:\n  " + "\n  ".join(problems) + "\n")
     os.makedirs(gendir, exist_ok=True)
